@@ -3,6 +3,7 @@ import QuantemModel.Lemmas.GramSchmidt
 import QuantemModel.Lemmas.ConstraintsWeights
 import QuantemModel.Lemmas.ConstraintsParseval
 import QuantemModel.Lemmas.ConstraintsHistory
+import QuantemModel.Lemmas.ConstraintsRegistry
 /-!
 C10 — object and probe constraints yield physically admissible models.
 Theorems are about `Model/Constraints.lean` at the real instance of the numeric carrier
@@ -348,6 +349,163 @@ theorem probe_history_total (st : ProbeState ℝ) (steps : List (ℝ × List (Im
   exact ⟨weights_total M st.weights _ hM hw hE hlen hsum hrect,
          (weights_mode_intensity M st.weights _ hM hw hE hlen hrect).1, trivial⟩
 
+
+/-! ## growth round 5: histories with REJECTED calls, several live models of one class
+
+The theorems of the previous section assume every request is valid and look at one model.  These do
+not: a call may raise (`KeyError` / `ValueError`) and the caller carries on; other models of the same
+class are built and configured in between. -/
+
+/-- **the `constraints` setter with an invalid key**: exactly the entries before the first invalid key
+are assigned (in order), and it raises iff some key is invalid. -/
+theorem constraints_setter_rejected_prefix {V : Type} (allowed : List String) (d : CDict V)
+    (items : List (String × V)) :
+    (setConstraints allowed d items).1 = applyAdds d (effectiveItems allowed items) ∧
+    ((setConstraints allowed d items).2 = none ↔ ∀ kv ∈ items, kv.1 ∈ allowed) :=
+  ⟨setConstraints_fst allowed items d, setConstraints_snd allowed items d⟩
+
+/-- **last writer wins for EVERY history of one model** — valid and rejected `add_constraint`s, `constraints`
+assignments with invalid keys, resets to the class defaults, and any operations on OTHER models in
+between: key `k` of model `j` holds the value of the last assignment that was really made to it
+(`writesTo`), or what it held before. -/
+theorem constraints_any_history {V : Type} (allowed : List String) (defaults : CDict V) (j : Nat)
+    (d : CDict V) (ops : List (RegOp V)) (k : String) :
+    cget (runDict allowed defaults j d ops) k = match lastWrite k (writesTo allowed defaults j ops) with
+                                                | some v => some v
+                                                | none => cget d k := by
+  rw [runDict_eq_applyAdds]
+  exact cget_applyAdds _ d k
+
+/-- **models do not share their constraints**: in a registry of live models of one class, after any history
+(any interleaving of building models, valid / rejected configuration of any of them) model `j` holds
+exactly what its OWN sub-history produces from its own dictionary. -/
+theorem models_isolated {V : Type} (allowed : List String) (defaults : CDict V) (reg : Registry V)
+    (ops : List (RegOp V)) (j : Nat) (hj : j < reg.length) :
+    (runReg allowed defaults reg ops)[j]? = (reg[j]?).map (fun d => runDict allowed defaults j d ops) :=
+  runReg_getElem? allowed defaults ops j reg hj
+
+/-- the model an operation is addressed to -/
+def opTarget {V : Type} : RegOp V → Option Nat
+  | .new => none
+  | .add i _ _ => some i
+  | .set i _ => some i
+  | .resetDefaults i => some i
+
+/-- **configuring model A never changes model B**: a history none of whose operations is addressed to `j`
+leaves model `j` as it was. -/
+theorem other_models_untouched {V : Type} (allowed : List String) (defaults : CDict V) (reg : Registry V)
+    (ops : List (RegOp V)) (j : Nat) (hj : j < reg.length) (hops : ∀ op ∈ ops, opTarget op ≠ some j) :
+    (runReg allowed defaults reg ops)[j]? = reg[j]? := by
+  rw [models_isolated allowed defaults reg ops j hj]
+  have hw : writesTo allowed defaults j ops = [] := by
+    induction ops with
+    | nil => rfl
+    | cons op rest ih =>
+      have hrest := ih (fun o ho => hops o (by simp [ho]))
+      have hop := hops op (by simp)
+      cases op with
+      | new => simpa [writesTo] using hrest
+      | add i k v =>
+        have : i ≠ j := fun e => hop (by simp [opTarget, e])
+        simp [writesTo, this, hrest]
+      | set i items =>
+        have : i ≠ j := fun e => hop (by simp [opTarget, e])
+        simp [writesTo, this, hrest]
+      | resetDefaults i =>
+        have : i ≠ j := fun e => hop (by simp [opTarget, e])
+        simp [writesTo, this, hrest]
+  cases h : reg[j]? with
+  | none => simp
+  | some d => simp [runDict_eq_applyAdds, hw, applyAdds]
+
+/-- **a model built later starts from the class defaults** whatever was configured on the models before it,
+and building it changes none of them. -/
+theorem new_model_gets_defaults {V : Type} (allowed : List String) (defaults : CDict V) (reg : Registry V) :
+    (regStep allowed defaults reg .new).1[reg.length]? = some defaults ∧
+    (regStep allowed defaults reg .new).2 = none ∧
+    ∀ j, j < reg.length → (regStep allowed defaults reg .new).1[j]? = reg[j]? := by
+  refine ⟨by simp [regStep], rfl, fun j hj => ?_⟩
+  simp only [regStep]
+  exact List.getElem?_append_left hj
+
+/-- two models, A switches positivity off (and tries an invalid key): B still has its default -/
+example : (runReg ["positivity", "identical_slices"] [("positivity", true), ("identical_slices", false)]
+      [[("positivity", true), ("identical_slices", false)], [("positivity", true), ("identical_slices", false)]]
+      [.add 0 "positivity" false, .add 0 "bogus" true, .set 0 [("identical_slices", true), ("bogus", true)],
+       .new])
+    = [[("positivity", false), ("identical_slices", true)], [("positivity", true), ("identical_slices", false)],
+       [("positivity", true), ("identical_slices", false)]] := by decide
+
+/-- **a rejected call on the probe model changes nothing** (`initial_probe_weights` of the wrong length,
+`set_initial_probe` with a conflicting `roi_shape` or a non-positive mean intensity, `probe = ` a stack of
+the wrong shape): the state after the `ValueError` is the state before it. -/
+theorem probe_rejected_call_changes_nothing (st : ProbeModel ℝ) (op : ProbeOp ℝ) (e : PErr)
+    (h : (probeStep st op).2 = some e) : (probeStep st op).1 = st :=
+  probeStep_rejected st op e h
+
+/-- **the stored weights are the last ACCEPTED request**, for every history of valid and rejected calls
+(nothing but an accepted `initial_probe_weights` assignment writes them). -/
+theorem probe_weights_last_accepted (st : ProbeModel ℝ) (ops : List (ProbeOp ℝ)) :
+    (runProbeOps st ops).weights = lastAcceptedWeights st.numProbes st.weights ops :=
+  (runProbeOps_weights ops st).1
+
+/-- **every valid (re-)initialisation is exact after ANY history** of valid and rejected calls: total
+diffraction intensity `M`, mode `k` carries `W_k · M` where `W` are the last accepted weights, and the raw
+parameter is the new initial probe. -/
+theorem probe_ops_total (st : ProbeModel ℝ) (ops : List (ProbeOp ℝ)) (M : ℝ) (ramps : List (Img ℝ))
+    (hM : 0 < M)
+    (hw : ∀ x ∈ lastAcceptedWeights st.numProbes st.weights ops, 0 ≤ x)
+    (hsum : Num.sum (lastAcceptedWeights st.numProbes st.weights ops) = 1)
+    (hE : ∀ p ∈ List.zipWith mulImg (runProbeOps st ops).initial ramps, 0 < energy p)
+    (hlen : (lastAcceptedWeights st.numProbes st.weights ops).length
+              = (List.zipWith mulImg (runProbeOps st ops).initial ramps).length)
+    (hrect : ∀ p ∈ List.zipWith mulImg (runProbeOps st ops).initial ramps, ∃ nr nc, RectImg nr nc p) :
+    let r := probeStep (runProbeOps st ops) (.setInitial st.roi M ramps)
+    r.2 = none ∧ diffIntensity r.1.initial = M ∧
+      r.1.initial.map energy = (lastAcceptedWeights st.numProbes st.weights ops).map (· * M) ∧
+      r.1.param = r.1.initial ∧ r.1.weights = lastAcceptedWeights st.numProbes st.weights ops := by
+  intro r
+  obtain ⟨hwt, _, hroi⟩ := runProbeOps_weights ops st
+  have hleb : Num.leb M (Num.zero : ℝ) = false := by
+    rw [Bool.eq_false_iff]; intro h; rw [NumReal.leb_eq] at h; simp at h; linarith
+  have hr : r = ({ runProbeOps st ops with
+                    initial := applyWeights M (runProbeOps st ops).weights
+                      (List.zipWith mulImg (runProbeOps st ops).initial ramps),
+                    param := applyWeights M (runProbeOps st ops).weights
+                      (List.zipWith mulImg (runProbeOps st ops).initial ramps),
+                    meanInt := some M }, none) := by
+    simp only [r, probeStep, hroi, bne_self_eq_false, Bool.false_eq_true, if_false, hleb]
+  rw [hr, hwt]
+  exact ⟨rfl, weights_total M _ _ hM hw hE hlen hsum hrect,
+         (weights_mode_intensity M _ _ hM hw hE hlen hrect).1, rfl, rfl⟩
+
+/-- the seeded kind of history: a 2-mode model, a rejected length-1 assignment, the weights stay `[3/4, 1/4]` -/
+example : lastAcceptedWeights 2 ([3/4, 1/4] : List ℝ) [.setWeights (some [1]), .reset] = [3/4, 1/4] := by
+  simp [lastAcceptedWeights]
+
+/-- **tomography object read through its dictionary**: a truthy `positivity` entry gives a non-negative
+object, whatever the `shrinkage` entry holds (`False`, `None`, `0.0`, a number, `True`). -/
+theorem tomo_nonneg_dict (pos shr : TomoVal ℝ) (obj : List ℝ) (hpos : pos.truthy = true) :
+    ∀ v ∈ tomoApplyHardD pos shr obj, 0 ≤ v := by
+  unfold tomoApplyHardD
+  rw [hpos]
+  exact tomo_nonneg _ obj
+
+/-- **`orthogonalize_probe` on**: the probe handed to the forward model is the orthogonalised stack
+(so the three Gram–Schmidt theorems apply to it); off: the raw stack, nothing is claimed. -/
+theorem probe_apply_hard_on (vs : List (Vec ℝ)) : probeApplyHard true vs = gramSchmidt vs := rfl
+
+/-- **a model left at its class defaults is admissible with NO side condition** (the FOV mask is not applied
+by default, so nothing is required of it): potential objects are non-negative, complex objects have
+amplitude at most one, for every raw array and every mask. -/
+theorem default_constraints_admissible (mask : Option (List (List ℝ))) :
+    (∀ obj : List (List ℝ), ∀ row ∈ applyHardPot objDefaultCons mask obj, ∀ v ∈ row, 0 ≤ v) ∧
+    (∀ obj : List (List (Cx ℝ)), ∀ row ∈ applyHardCx .complex objDefaultCons mask obj, ∀ z ∈ row, Cx.abs z ≤ 1) := by
+  have hm : ∀ P : ℝ → Prop, MaskAll P (effMask (objDefaultCons : ObjCons ℝ).applyFovMask mask) := by
+    intro P m hm
+    simp [objDefaultCons, effMask] at hm
+  exact ⟨fun obj => potential_nonneg objDefaultCons mask obj rfl (hm _),
+         fun obj => complex_amp_le_one objDefaultCons mask obj (hm _)⟩
 
 /-! non-vacuity: the hypotheses are satisfiable on non-trivial inputs -/
 example : MaskAll (fun x => 0 ≤ x ∧ x ≤ 1) (effMask cexCons.applyFovMask (some [[1/2, 1], [0, 1/4]])) := by
